@@ -162,8 +162,16 @@ def r2_lme(ctx):
             ctx.check(equal(got, ref), "C20.R2", f, f.node, "(age - ages_mean)/ages_std", f"age normalisation is {got}; the other sites use (age - ages_mean)/ages_std", construct=f"age normalisation in {f.name}")
         except (NFUnsupported, SyntaxError) as e:
             ctx.unknown("C20.R2", f, f.node, str(e), construct=f"age normalisation in {f.name}")
-    bfit = unify(fl, ["?fitted = MixedLM(...).fit(**$0.sm_fit_parameters)"]) or unify(fl, ["?fitted = ?lme.fit(**$0.sm_fit_parameters)", "?lme = MixedLM(...)"])
-    ok = bfit is not None and stored.get("cov_re_unscaled_inv") == f"np.linalg.inv({bfit['fitted']}.cov_re_unscaled)" and stored.get("fe_params") == bfit["fitted"] + ".fe_params"
+    import re as _re
+    mfit = _re.fullmatch(r"np\.linalg\.inv\((?P<fit>.+)\.cov_re_unscaled\)", stored.get("cov_re_unscaled_inv", ""))
+    fit_txt = mfit.group("fit") if mfit else None
+    if fit_txt and _re.fullmatch(r"%\d+", fit_txt):
+        defs_ = rhs_of(fl, fit_txt)
+        fit_def = defs_[0] if len(defs_) == 1 else ""
+    else:
+        fit_def = fit_txt or ""
+    is_fit = fit_def.startswith("MixedLM(") and fit_def.endswith(".fit(**$0.sm_fit_parameters)")
+    ok = bool(fit_txt) and is_fit and stored.get("fe_params") == fit_txt + ".fe_params"
     ctx.check(ok, "C20.R2", fit, fit.node, "C = inverse of the fitted unscaled random-effects covariance; fe = fitted fixed effects", "stored variance components / fixed effects changed", construct="stored components")
     # random effects
     g = ix.func(LP, "LMEPersonalizeAlgorithm._generic_get_random_effects", "C20.R2")
